@@ -586,6 +586,20 @@ def w_aux(v: int) -> bool:
         val = v >= 0
     holder = ir if level == "ir" else m
     holder.aux_data["t"] = gtirb.AuxData(val, t)
+    if SHARD.get("presave"):
+        # the IR was saved once before; afterwards the table is edited in place (through the object returned by .data)
+        ir._to_protobuf()
+        cur = holder.aux_data["t"].data
+        if t == "mapping<string,int64_t>":
+            cur["k"] = v - 1 if v > -I63 else v + 1
+            cur["later"] = 5
+            val = {"k": cur["k"], "": 0, "later": 5}
+        elif t == "sequence<tuple<uint8_t,int64_t>>":
+            cur.append((3, v))
+            val = [(1, v), (2, -1), (3, v)]
+        elif t == "set<UUID>":
+            cur.discard(loose)
+            val = {cb}
     msg = ir._to_protobuf()
     if oracle() == "writer":
         pa = (msg if level == "ir" else msg.modules[0]).aux_data
@@ -599,7 +613,14 @@ def w_aux(v: int) -> bool:
     got = h2.aux_data["t"].data
     cb2 = ir2.get_by_uuid(U(5))
     s2 = ir2.get_by_uuid(U(3))
-    if t == "set<UUID>":
+    if SHARD.get("presave") and t in ("mapping<string,int64_t>", "sequence<tuple<uint8_t,int64_t>>", "set<UUID>"):
+        if t == "set<UUID>":
+            ok = len(got) == 1 and any(x is cb2 for x in got)
+        elif t == "mapping<string,int64_t>":
+            ok = len(got) == 3 and got["k"] == val["k"] and got["later"] == 5 and got[""] == 0
+        else:
+            ok = len(got) == 3 and got[2] == (3, v) and got[0] == (1, v)
+    elif t == "set<UUID>":
         ok = len(got) == 2 and any(x is cb2 for x in got) and any(isinstance(x, UUID) and x == loose for x in got)
     elif t == "mapping<UUID,Offset>":
         ok = len(got) == 2 and s2 in got and got[s2].element_id is cb2 and got[s2].displacement == v + I63 \
